@@ -82,13 +82,27 @@ def main():
             "by": sorted({c.split(" -- ")[0] for r in killed for c in r["caught_by"]})[:4],
             "runs": [{"tier": r["tier"], "seed": r["seed"], "args": r["args"], "rc": r["rc"]} for r in runs],
         })
-        rows.append((name, prop, bool(quick_killed), bool(killed), (am.get("summary", "")[:110]).replace("|", "/"),
-                     "; ".join(sorted({c.split(" -- ")[0].split(" ", 1)[1] if " " in c.split(" -- ")[0] else c for r in killed for c in r["caught_by"]})[:2])))
+        q1 = [r for r in runs if r["tier"] == "quick" and r["seed"] == 1 and not r["args"]]
+        q1_last = q1[-1] if q1 else None
+        others = [f"{r['tier']} seed {r['seed']}{(' ' + r['args']) if r['args'] else ''}: {'caught' if r['rc'] == 1 and r['violations'] else 'not caught'}"
+                  for r in runs if r is not q1_last]
+        rows.append((name, prop, (q1_last is not None and q1_last["rc"] == 1 and q1_last["violations"] > 0), bool(killed),
+                     (am.get("summary", "")[:150]).replace("|", "/").replace("\n", " "),
+                     "; ".join(sorted({c.split(" -- ")[0].split(" ", 1)[1] if " " in c.split(" -- ")[0] else c for r in killed for c in r["caught_by"]})[:2])
+                     + ((" [other runs: " + "; ".join(others) + "]") if others else "") + ("" if runs else " [not run]")))
     json.dump(sens, open(os.path.join(HERE, "sensitivity.json"), "w"), indent=1)
     with open(os.path.join(HERE, "out", "seeded_table.md"), "w") as f:
-        f.write("| seeded change | property | quick | any tier | what it changes | caught by (signature) |\n|---|---|---|---|---|---|\n")
+        f.write("| seeded change | property | quick, seed 1 (last run) | any run | what it changes | caught by (signatures) |\n|---|---|---|---|---|---|\n")
         for r in rows:
             f.write(f"| {r[0]} | {r[1]} | {'yes' if r[2] else 'no'} | {'yes' if r[3] else 'NO'} | {r[4]} | {r[5]} |\n")
+    # insert into DESIGN.md between the markers
+    dp = os.path.join(HERE, "DESIGN.md")
+    ds = open(dp).read()
+    if "<!-- SEEDED_TABLE -->" in ds:
+        head = ds.split("<!-- SEEDED_TABLE -->")[0]
+        tail = ds.split("<!-- /SEEDED_TABLE -->")[1] if "<!-- /SEEDED_TABLE -->" in ds else "\n"
+        tab = open(os.path.join(HERE, "out", "seeded_table.md")).read()
+        open(dp, "w").write(head + "<!-- SEEDED_TABLE -->\n" + tab + "<!-- /SEEDED_TABLE -->" + tail)
     nk = sum(1 for r in rows if r[3])
     print(f"{len(rows)} seeded changes, {nk} detected, {sum(1 for r in rows if r[2])} by the default quick tier")
     for r in rows:
